@@ -316,6 +316,24 @@ def case_likelihood(case):
     got = _kllf_ref(cls, lam_fit, shift, data)
     r.true("fit attains brute-force maximum likelihood", got >= vals.max() - 1e-8 * (abs(vals.max()) + 1), info={"fit": lam_fit, "llf": got, "grid_argmax": float(grid[imax]), "grid_max": float(vals.max())})
     r.true("fit close to grid argmax", abs(lam_fit - grid[imax]) <= 2 * (grid[1] - grid[0]), info={"fit": lam_fit, "grid_argmax": float(grid[imax])})
+    if cls == "BoxCoxShift":
+        # the other selection: lmbda kept, shift fitted (skipped name sorts before the free one)
+        for lam0 in (0.5, 0.0, -0.4):
+            n3 = make(cls, lam0, shift)
+            sgrid = -float(data.min()) + np.geomspace(1e-3, 30.0, 300)
+            sv = np.array([_kllf_np(cls, lam0, s_, data) for s_ in sgrid])
+            res3 = n3.fit(data, skip=["lmbda"])
+            r.close("fit(skip=['lmbda']) keeps the skipped parameter", [float(res3["lmbda"]), float(n3.lmbda)], [lam0, lam0], rtol=0, atol=0, lam=lam0)
+            r.close("fit(skip=['lmbda']) result == state", float(n3.shift), float(res3["shift"]), rtol=0, atol=0, lam=lam0)
+            js = int(np.argmax(sv))
+            if 0 < js < len(sgrid) - 1 and float(res3["shift"]) > -float(data.min()):
+                got3 = _kllf_np(cls, lam0, float(res3["shift"]), data)
+                r.true("fit(skip=['lmbda']): fitted shift attains the brute-force maximum likelihood for the kept lmbda", got3 >= sv.max() - 1e-6 * (abs(sv.max()) + 1), info={"fit": float(res3["shift"]), "llf": got3, "grid_argmax": float(sgrid[js]), "grid_max": float(sv.max())}, lam=lam0)
+        # both parameters fitted
+        n4 = make(cls, 1.0, shift)
+        res4 = n4.fit(data)
+        r.close("fit (both parameters) result == state", [float(n4.lmbda), float(n4.shift)], [float(res4["lmbda"]), float(res4["shift"])], rtol=0, atol=0)
+        # (the joint likelihood of lmbda and shift is unbounded as shift -> -min(data): no maximum to compare with)
     # constructor with data fits as well
     C = getattr(gn, cls)
     n2 = C(data) if cls != "BoxCoxShift" else None
@@ -427,6 +445,24 @@ def case_pipeline(case):
         r.close("remove_trend_norm_mean(apply(...)) == raw", back, raw, rtol=1e-8, atol=1e-10)
         fwd = apply_mean_norm_trend(pos, raw.copy(), mean=mean, normalizer=nrm, trend=trend, mesh_type=mesh, value_type="scalar", check_shape=True)
         r.close("apply_mean_norm_trend == documented composition", fwd, exp, rtol=1e-9, atol=1e-12)
+        # the form used inside the library (no shape check, float64 data in target shape), twice on the same data
+        o = np.array(out, dtype=np.double)
+        if mesh == "structured" or True:
+            for rep in (1, 2):
+                b = remove_trend_norm_mean(pos if mesh == "structured" else [np.asarray(p) for p in pos], o, mean=mean, normalizer=nrm, trend=trend, mesh_type=mesh, value_type="scalar", check_shape=False)
+                r.close("remove_trend_norm_mean(check_shape=False) == raw, also when applied again to the same data", b, raw, rtol=1e-8, atol=1e-10, rep=rep)
+            f2 = apply_mean_norm_trend(pos if mesh == "structured" else [np.asarray(p) for p in pos], np.array(raw, dtype=np.double), mean=mean, normalizer=nrm, trend=trend, mesh_type=mesh, value_type="scalar", check_shape=False)
+            r.close("apply_mean_norm_trend(check_shape=False) == documented composition", f2, exp, rtol=1e-9, atol=1e-12)
+        # a derived field (transformation with process=True stored under another name) leaves the stored
+        # output in the documented relation to the raw field
+        if kind in ("SRF", "Field", "CondSRF") and hasattr(obj, "transform"):
+            try:
+                obj.transform("binary", store="derived", process=True)
+                derived = True
+            except Exception:  # noqa (transformation not applicable to this configuration)
+                derived = False
+            if derived:
+                r.close("stored output still == trend + denormalize(mean + raw) after deriving another field with process=True", np.array(obj.field, dtype=float), exp, rtol=1e-9, atol=1e-12)
     return r.done(outcome=[round(float(v), 8) for v in np.ravel(out)[:3]])
 
 
